@@ -229,12 +229,19 @@ def main(argv=None):
             errors.append((r['target'], e))
         if not r['obligations'] and not r.get('undecided'):
             errors.append((r['target'], 'zero obligations generated'))
+        # vacuity guard: an obligation whose path condition is unsatisfiable belongs to a DEAD path (the interpreter's own feasibility
+        # test had timed out, the guard's solver then refuted the path): it is dropped.  If EVERY obligation of a target is of that
+        # kind the scenario's preconditions contradict each other: checker error.
+        vac = [ob for ob in r['obligations'] if ob.get('pc_sat') == 'unsat']
+        if vac and len(vac) == len(r['obligations']):
+            errors.append((r['target'], 'vacuous path condition at %s (all %d obligations of the target)' % (vac[0]['name'], len(vac))))
+        elif vac:
+            r['dead_paths'] = r.get('dead_paths', 0) + len(vac)
+            r['obligations'] = [ob for ob in r['obligations'] if ob.get('pc_sat') != 'unsat']
         for ob in r['obligations']:
             ob['target'] = r['target']
             ob['function'] = r.get('function')
             n_ob += 1
-            if ob.get('pc_sat') == 'unsat':
-                errors.append((r['target'], 'vacuous path condition at %s' % ob['name']))
             if ob['result'] == 'discharged':
                 n_dis += 1
             elif ob['result'] == 'refuted':
